@@ -39,6 +39,7 @@ def rule_drain(ctx):
     R = "C03.1"
     ctx.rule(R, "the per-definition report cache is drained after the call that may fill it (CFG generation), and what was drained is what is written; every pass result is appended to that collection; the cache takes every report it is handed")
     rule_cache_append(ctx, R)
+    rule_no_narrowing(ctx, R)
     for kind in ("template", "function"):
         fn = find_fn(RUN, "analyze_" + kind)
         if fn is None:
@@ -183,7 +184,7 @@ def rule_exit_status(ctx, R="C03.2"):
     okb, how = sgrep.each_calls(w["body"], FR + ".iter()", "to_diagnostic", envl)
     if not okb:
         okb, how = sgrep.each_calls(w["body"], FR, "to_diagnostic", envl)
-    filt = [m["method"] for m in walk(w["body"]) if m["k"] == "MethodCall" and m["method"] in ("filter", "filter_map", "take", "skip", "take_while", "skip_while", "step_by", "dedup") and FR in render(m["recv"])]
+    filt = [m["method"] for m in walk(w["body"]) if m["k"] == "MethodCall" and m["method"] in NARROWING and FR in render(m["recv"])]
     ctx.check(R, "StdoutWriter::write_reports/one-diagnostic-per-report", okb and not filt, "%s; narrowing adaptors on the displayed collection: %s" % (how, filt), site(WR, w))
     emits = list(calls(w["body"], "term::emit"))
     oke = False
@@ -432,6 +433,33 @@ def rule_region(ctx, R="C03.8"):
         ctx.check(R, "ReportLabel::to_sarif/" + m, ok, det, site(SC, fn))
     uri = env.get("file_uri")
     ctx.check(R, "ReportLabel::to_sarif/uri-of-the-label-file", uri is not None and render(strip(uri)).replace(" ", "").startswith("self.file_id.to_uri(files)"), render(uri) if uri else "?", site(SC, fn))
+
+
+NARROWING = ("filter", "filter_map", "take", "skip", "take_while", "skip_while", "step_by", "dedup", "dedup_by", "dedup_by_key", "retain", "retain_mut", "truncate", "remove", "swap_remove", "drain", "clear", "pop", "split_off", "unique")
+
+
+def rule_no_narrowing(ctx, R):
+    """between production and display nothing removes reports except the user's filters: the runner and the writers
+    never narrow a report collection (de-duplication keyed by text or position drops distinct findings, and which one
+    survives depends on hash order)"""
+    n = 0
+    for file, quals in ((RUN, None), (WR, None)):
+        for q, f in fns_in_file(file):
+            if not f.get("body"):
+                continue
+            if file == WR and f["name"] == "filter":
+                continue  # the user's filters: checked by C03.2 (conjunction of all filters, nothing else)
+            if file == RUN and f["name"].startswith(("take_", "function_names", "template_names")):
+                continue  # draining a cache / selecting definitions is not narrowing a report collection
+            n += 1
+            bad = []
+            for m in walk(f["body"]):
+                if m["k"] == "MethodCall" and m["method"] in NARROWING:
+                    recv = render(strip(m["recv"]))
+                    if re.search(r"report", recv, re.I) or recv in ("reports", "self.reports"):
+                        bad.append("%s.%s(..)" % (recv[:30], m["method"]))
+            ctx.check(R, "%s::%s/no-narrowing" % ((q or file.rsplit("/", 1)[-1]), f["name"]), not bad, "report collections are narrowed: %s" % bad, site(file, f))
+    ctx.floor(R, "runner and writer functions", n, 15)
 
 
 def rule_cache_append(ctx, R):
